@@ -203,6 +203,11 @@ func startModules() error {
 			rep = <-reports
 			if rep.err != nil {
 				rep.module.NewErrorMessage("start module", rep.err).Report()
+				// Wait for the other modules that are still starting, so that
+				// they are in a defined state and can be stopped again.
+				for reportCnt++; reportCnt < execCnt; reportCnt++ {
+					<-reports
+				}
 				return fmt.Errorf("modules: could not start module %s: %w", rep.module.Name, rep.err)
 			}
 			reportCnt++
